@@ -60,6 +60,63 @@ def Body.tx {S : Type} (b : Body) (sec : S) : List (TxOut S) :=
     { sat := sat, spk := match k with
         | .toLocal => .revokeable sec | .htlc => .htlc | .toRemote => .toRemote | .anchor => .anchor }
 
+
+/-! ### commitments as the channel builds them
+
+    The monitor never looks at how the outputs of a commitment are ordered: it follows the output
+    indices stored with the HTLC list.  `Spec` is a commitment before layout; `Spec.body` lays it out
+    (victim's `to_remote`, anchors, one output per non-dust HTLC, the broadcaster's `to_local`) and
+    assigns the indices the way the tx builder does — to every non-dust HTLC the index of ITS output,
+    to dust HTLCs none.  (The real order is BIP-69; any order with consistent indices is equivalent
+    for the monitor — `Body.WF` is exactly that consistency, re-checked on every real commitment by
+    the c06justice harness.) -/
+
+/-- a body whose HTLC list and outputs agree: every HTLC carrying an output index points at an
+    `htlc` output of its own value, and every `htlc` output is pointed at by a listed HTLC -/
+def Body.WF (b : Body) : Prop :=
+  (∀ h ∈ b.htlcs, ∀ i, h.outIdx = some i → b.outputs[i]? = some (h.sat, .htlc)) ∧
+  (∀ i sat, b.outputs[i]? = some (sat, .htlc) → ∃ h ∈ b.htlcs, h.outIdx = some i)
+
+structure HtlcSpec where
+  amtMsat : Nat
+  offered : Bool
+  cltv : Nat
+  /-- above the broadcaster's dust limit (has an output) -/
+  nondust : Bool
+  deriving DecidableEq, Repr, Inhabited
+
+structure Spec where
+  /-- the broadcaster's (cheater's) revocable balance, if above dust -/
+  toLocalSat : Option Nat
+  /-- the victim's balance, if above dust -/
+  toRemoteSat : Option Nat
+  /-- anchor channel: two anchor outputs -/
+  anchors : Bool
+  htlcs : List HtlcSpec
+  deriving DecidableEq, Repr, Inhabited
+
+/-- the HTLC list handed to the monitor: non-dust HTLCs get consecutive output indices from `base` -/
+def assignIdx : Nat → List HtlcSpec → List Htlc
+  | _, [] => []
+  | base, h :: rest =>
+    if h.nondust then ⟨h.amtMsat, h.offered, h.cltv, some base⟩ :: assignIdx (base + 1) rest
+    else ⟨h.amtMsat, h.offered, h.cltv, none⟩ :: assignIdx base rest
+
+/-- one output per non-dust HTLC, in list order -/
+def htlcOuts : List HtlcSpec → List (Nat × OutKind)
+  | [] => []
+  | h :: rest => if h.nondust then (h.amtMsat / 1000, .htlc) :: htlcOuts rest else htlcOuts rest
+
+def Spec.pre (s : Spec) : List (Nat × OutKind) :=
+  (match s.toRemoteSat with | some v => [(v, .toRemote)] | none => []) ++
+  (if s.anchors then [(330, .anchor), (330, .anchor)] else [])
+
+def Spec.post (s : Spec) : List (Nat × OutKind) :=
+  match s.toLocalSat with | some v => [(v, .toLocal)] | none => []
+
+def Spec.body (s : Spec) : Body :=
+  { outputs := s.pre ++ (htlcOuts s.htlcs ++ s.post), htlcs := assignIdx s.pre.length s.htlcs }
+
 variable {S : Type}
 
 /-- `counterparty_claimable_outpoints: HashMap<Txid, Vec<(HTLCOutputInCommitment, Option<Box<HTLCSource>>)>>`
